@@ -3,9 +3,11 @@ mod fam_d;
 mod fam_e;
 mod fam_p;
 mod fam_s;
+mod fam_t;
 mod gast;
 mod interp;
 mod progcheck;
+mod replay;
 mod props;
 mod subject;
 mod worker;
@@ -21,6 +23,9 @@ fn main() {
     if args.len() >= 2 && args[1] == "debug-c06" {
         props::c06::debug();
         return;
+    }
+    if args.len() >= 3 && args[1] == "replay" {
+        std::process::exit(replay::run(&args[2]));
     }
     if args.len() < 3 {
         eprintln!("usage: gverif <PROPERTY> <quick|thorough>");
